@@ -614,7 +614,7 @@ fn sweep(mode: Mode, ctx: &mut Ctx, rep: &mut Report) {
         sink.rep.space(
             "shapes",
             "every length L in 0..=170 (R<=6 sequence rows, so with block sizes 1..8 every relative position of a block boundary w.r.t. the sequence rows and the M-1 look-ahead rows occurs) plus L = 8192 +- {0,32,64} (+-1) \
-             x 3 contents (de Bruijn cycle, constant, period-5 with wildcard) x matrix menu (M in 1..=4, 14 matrices; thorough 40) x wildcard column {-inf, finite below every entry, finite row mean, finite ABOVE every entry of its row} x striped sequence {fresh, previously configured for a shorter motif} x thresholds (<= 4 (thorough 8) evenly ranked attainable scores, their midpoints, + extremes) \
+             x 3 contents (de Bruijn cycle, constant, period-5 with wildcard) x matrix menu (M in 1..=4, 14 matrices; thorough 40) x wildcard column {-inf, finite below every entry, finite row mean, finite ABOVE every entry of its row} x striped sequence {fresh, previously configured for a shorter motif, previously configured for a longer motif} x thresholds (<= 4 (thorough 8) evenly ranked attainable scores, their midpoints, + extremes) \
              x block sizes {1,2,3,4,5,7,8,256} x 3 dispatcher arms",
         );
         let mut mats: Vec<(usize, u64)> = vec![(1, 0), (1, 3), (2, 7), (2, 8), (2, 20), (3, 44), (3, 100), (3, 215), (4, 0), (4, 333), (4, 800), (4, 1295), (2, 28), (3, 86), (2, 55), (3, 6 * 64 + 7 * 8 + 1), (4, 6 * 512 + 7 * 64 + 8 + 5)];
@@ -660,7 +660,8 @@ fn sweep(mode: Mode, ctx: &mut Ctx, rep: &mut Report) {
                                     }
                                     // the striped sequence object may have been used before with a shorter motif:
                                     // every second block size gets a sequence pre-configured with M-2 (or 1) look-ahead rows
-                                    let pre_wrap = if m >= 2 && block % 2 == 0 { Some((m - 1).saturating_sub(1).max(1).min(m - 1)) } else { None };
+                                    // even block sizes: configured for a shorter motif before; block sizes 3 and 7: for a LONGER one (wrap rows in excess)
+                                    let pre_wrap = if m >= 2 && block % 2 == 0 { Some((m - 1).saturating_sub(1).max(1).min(m - 1)) } else if block == 3 || block == 7 { Some(m + 6) } else { None };
                                     let cfg = Config {
                                         seq: seq.clone(),
                                         matrix: matrix.clone(),
